@@ -29,6 +29,10 @@ def infer_family(pid, tier, chk=None):
                      "seeded random nested inputs; non-trivial = a %s clause had a true antecedent; distinct by event content"
                      % (len(beh), n_random, pid))
     chk.validate("Trace_Infer", traces, inputs)
+    if pid == "C08":
+        t3, i3 = DI.optimize_traces(900 if quick else None)
+        chk.rules.append("%d unions of Optional / nested-union / repeated members given to optimize_type directly, twice" % len(t3))
+        chk.validate("Trace_Infer", t3, i3)
     if not quick and pid in ("C01", "C02", "C08", "C13"):
         t2, i2 = suite_traces(chk, ("Generate",))
         chk.rules.append("%d generate() calls made by the repository's own test-suite, recorded with harness/pytest_j2m.py" % len(t2))
